@@ -100,7 +100,7 @@ class Run:
         procs = []
         for f in srcs:
             o = os.path.join(d, os.path.basename(f)[:-4] + '.o')
-            procs.append((f, subprocess.Popen(['g++', '-std=c++17', '-O1', '-g', '-fno-inline', '-DNDEBUG', '-DHEITZMANN_GDSTK_VERIF', '-fsanitize=address,undefined',
+            procs.append((f, subprocess.Popen(['g++', '-std=c++17', '-O1', '-g', '-fno-inline', '-DNDEBUG', '-DHEITZMANN_GDSTK_VERIF', '-fsanitize=address,undefined', '-fno-sanitize=nonnull-attribute',
                                                '-fno-sanitize-recover=undefined', '-I' + REPO + '/include', '-I' + REPO + '/external', '-I' + REPO + '/external/clipper',
                                                '-c', f, '-o', o], stdout=subprocess.PIPE, stderr=subprocess.STDOUT, text=True)))
         for f, p in procs:
